@@ -1,6 +1,7 @@
 (* C14 - A refused edit changes nothing. Property theorems only. *)
-From Coq Require Import List.
-From SV Require Import Base.Base IR.State IR.NS IR.Ops Proofs.Refused.
+From Coq Require Import List NArith.
+From SV Require Import Base.Base IR.State IR.NS IR.Ops Proofs.Refused Proofs.InvW Proofs.Fresh Proofs.RefusedFull.
+Import ListNotations.
 
 (* every non-allocating editing call (add/remove/bulk remove/reorder of all seven containers,
    connect/disconnect(s), reference change, name and data assignment, top instance, bundle
@@ -12,13 +13,31 @@ Theorem C14_refused_changes_nothing : forall s o,
 Proof. exact refused_changes_nothing. Qed.
 Print Assumptions C14_refused_changes_nothing.
 
-(* the compound constructors allocate before they can be refused; for them the statement is
-   "old objects unchanged, new ones registered nowhere"; checked on the implementation by the
-   Frame oracle and on the model by the correspondence run; Coq proof not finished *)
-Definition C14_full : Prop := forall s o x,
-  snd (step s o) = Some x -> x <> XStuck ->
-  let s' := fst (step s o) in
-  forall e, e < next s ->
-    (forall r, kids s' r e = kids s r e /\ par s' r e = par s r e) /\
-    wpins s' e = wpins s e /\ ipwire s' e = ipwire s e /\ iref s' e = iref s e /\
-    drefs s' e = drefs s e /\ ipins s' e = ipins s e /\ data s' e = data s e.
+(* the full statement, every public call included (constructors, compound constructors
+   create_*(name, pins/wires/reference), top_instance = definition, deletions of data entries):
+   in every state reachable from the empty world, a refused call leaves every object that existed
+   before the call exactly as it was - old_eq is equality of every field of the model (kind,
+   all seven containers and their order, parents, wire pins, pin wires, references, reference sets,
+   outer-pin tables, top, bundle attributes, direction, data dictionaries, namespace tables) at every
+   identifier allocated before the call, and of the naming policy. A half-built element (identifier
+   >= next s) is therefore registered in no container, reference set or name table of the netlists. *)
+Theorem C14_full : forall ops o,
+  let s := run ops init in
+  refusal (step s o) -> old_eq s (fst (step s o)).
+Proof. exact reachable_refused_old. Qed.
+Print Assumptions C14_full.
+
+(* the same from the three invariants, for states not built from the empty world *)
+Theorem C14_full_inv : forall s o,
+  Fresh s -> FreshD s -> Inv s -> refusal (step s o) -> old_eq s (fst (step s o)).
+Proof. exact refused_old. Qed.
+Print Assumptions C14_full_inv.
+
+(* non-vacuity: a compound constructor that allocates and is then refused by the naming rules
+   (second library named "a"): the state differs from the one before, old objects do not *)
+Example C14_refused_compound :
+  let ops := [ONew KNetlist None []; OCreate RLibs 0 (Some [97%N]) [] 0 None] in
+  let s := run ops init in
+  let o := OCreate RLibs 0 (Some [97%N]) [] 0 None in
+  snd (step s o) = Some XValue /\ next (fst (step s o)) = S (next s) /\ kids (fst (step s o)) RLibs 0 = [1].
+Proof. vm_compute. repeat split. Qed.
